@@ -28,7 +28,8 @@ def build(world, strata, prop, quick, rnd):
             lat, lon, zone, ell, prj = world.position(s)
             P = prj[1]
             cm = lon  # placeholder
-            natural = abs(lon - (zone * P.zonewidth + P.initialcm - P.zonewidth)) <= P.zonewidth / 2.0 if s["prj"] != "isg" else True
+            # strictly inside the zone: on a boundary either neighbour is a legitimate automatic zone
+            natural = abs(lon - (zone * P.zonewidth + P.initialcm - P.zonewidth)) < P.zonewidth / 2.0 - 1e-9 if s["prj"] != "isg" else True
             zonearg = 0 if (natural and rnd.random() < 0.6) else zone
             tag = json.dumps(s, sort_keys=True)
             if "P" in kinds:
